@@ -106,6 +106,9 @@ def generate(rng, tier="quick"):
         kinds = set(p["group"]["kind"] for p in psets)
         big = 40000 if "ed25519" in kinds else 3000
         scn["long_jump"] = rng.choice([0, big, big])
+        if rng.random() < 0.6:
+            scn["site_targets"] = rng.choice([3, 6, 12])
+            scn["run_long"] = rng.choice([0, 300, 3000, 100000])
     return scn
 
 
@@ -174,13 +177,34 @@ def run_coop(config, steps, order_seed=None):
     return w
 
 
-def run_threads(config, steps, sched_seed, mean_gap, max_preempt, long_jump=0):
+def pick_targets(rng, sites, per_thread):
+    """site-targeted pre-emption plan from the sites a previous schedule of the same world
+    recorded: uniformly over source lines, occurrence index biased to the first hits"""
+    targets = {}
+    for tid in sorted(sites):
+        keys = sorted(sites[tid])
+        if not keys:
+            continue
+        tg = set()
+        for _ in range(per_thread):
+            site = keys[rng.randrange(len(keys))]
+            hits = sites[tid][site]
+            r = rng.random()
+            k = 1 if r < 0.4 else 2 if r < 0.55 else hits if r < 0.65 else rng.randrange(1, hits + 1)
+            tg.add((site, k))
+        targets[tid] = tg
+    return targets
+
+
+def run_threads(config, steps, sched_seed, mean_gap, max_preempt, long_jump=0, record_sites=False,
+                targets=None, run_long=0):
     lib = loader.load()
     w = sim.World(config, shadow=False)
     w.scn = {"config": config}
     lanes = lanes_of(steps, len(w.nodes))
     rng = random.Random(sched_seed)
-    sched = BatonScheduler(rng, mean_gap, max_preempt, os.path.join(lib.src, "spake2") + os.sep, long_jump)
+    sched = BatonScheduler(rng, mean_gap, max_preempt, os.path.join(lib.src, "spake2") + os.sep, long_jump,
+                           record_sites=record_sites, targets=targets, run_long=run_long)
 
     def body_for(i):
         def body(s, tid):
@@ -193,8 +217,10 @@ def run_threads(config, steps, sched_seed, mean_gap, max_preempt, long_jump=0):
         return body
     old = sys.getswitchinterval()
     sched.run({i: body_for(i) for i in lanes if lanes[i]})
+    w.sites = sched.sites
     w.sched_stats = {"switches": sched.switches, "line_events": sched.line_events,
-                     "preempts": sum(sched.preempts.values()),
+                     "preempts": sum(sched.preempts.values()), "site_hits": sched.site_hits,
+                     "distinct_sites": len(set(k for t in sched.sites.values() for k in t)),
                      "holders": hashlib.sha256(repr(sched.trace_log).encode()).hexdigest()[:12]}
     return w
 
@@ -292,10 +318,18 @@ def interleaved_job(scn):
         cfg, steps = scn["config"], scn["steps"]
         before = shared_snapshot(cfg)
         if scn.get("mode") == "threads":
+            targeted = scn.get("site_targets", 0)
             wa = run_threads(cfg, steps, scn["sched_seed"], scn.get("mean_gap", 200), scn.get("max_preempt", 40),
-                             scn.get("long_jump", 0))
-            wb = run_threads(cfg, steps, scn["sched_seed"] + 1, scn.get("mean_gap", 200), scn.get("max_preempt", 40),
-                             scn.get("long_jump", 0))
+                             scn.get("long_jump", 0), record_sites=bool(targeted))
+            if targeted:
+                # schedule B pre-empts at source lines chosen uniformly among those schedule A executed,
+                # and lets the thread that takes over run long
+                trng = random.Random(scn["sched_seed"] + 7)
+                wb = run_threads(cfg, steps, scn["sched_seed"] + 1, 0, scn.get("max_preempt", 40), 0,
+                                 targets=pick_targets(trng, wa.sites, targeted), run_long=scn.get("run_long", 0))
+            else:
+                wb = run_threads(cfg, steps, scn["sched_seed"] + 1, scn.get("mean_gap", 200),
+                                 scn.get("max_preempt", 40), scn.get("long_jump", 0))
         else:
             wa = run_coop(cfg, steps)
             wb = run_coop(cfg, steps, scn["sched_seed"])
@@ -376,6 +410,8 @@ def execute(scn):
                 R.probe("preempted", st["preempts"])
             R.probe("thread-switches", st["switches"])
             R.probe("line-events", st["line_events"])
+            if st.get("site_hits"):
+                R.probe("site-targeted-preemptions", st["site_hits"])
     R.cells.add("%s|n=%d|p=%d|%s" % (mode, nn, len(cfg["psets"]), ",".join(sorted(set(p["group"]["kind"] for p in cfg["psets"])))))
     # event log of the run = schedule A's log + per-session comparison lines
     for i, (op, n, out, d) in enumerate(res["evA"]):
